@@ -507,10 +507,24 @@ C16_PATTERNS = [('a', False), ('ab', False), ('A', False), ('b+', True), ('a*', 
                 ('^', True), ('$', True), ('[', False), ('(', False), ('*', False), ('\\', False)]
 
 
+def unobservable_violations(prop, ops_of_interest):
+    """values built by successful public operations that can no longer be queried: a violation of the property
+    whose operation comes last in the history (when it is one of ops_of_interest), else not this property's"""
+    out = []
+    for u in impl.drain_unobservable():
+        last = u['history'][-1][0] if u['history'] else ''
+        names = [op[0] for op in u['history']]
+        if any(n in ops_of_interest for n in names):
+            out.append({'oracle': prop + '.observe', 'case': {'history': u['history'], 'object': u['object']},
+                        'msg': 'a value built by successful operations (%s) can no longer be read: %s' % (', '.join(names), u['error'])})
+    return out[:3]
+
+
 def c16_run(rep, rng, tier, term):
     viol = []
     g = Gen(rng, odd=False)
     vals = impl.build_values(rng, 300 if tier == 'quick' else 6000, odd=False)
+    impl.drain_unobservable()
     for (o, ops, i) in vals:
         if not isinstance(o, AnsiString):
             continue
@@ -741,7 +755,9 @@ def c03_check(term, o, viol, payload):
 def c03_run(rep, rng, tier, term):
     viol, div = [], []
     vals = impl.build_values(rng, 300 if tier == 'quick' else 12000, odd='mix' and True)
+    impl.drain_unobservable()
     vals += impl.build_values(rng, 200 if tier == 'quick' else 8000, odd=False)
+    impl.drain_unobservable()
     def go():
         del viol[:]
         for (o, ops, i) in vals:
@@ -823,6 +839,7 @@ def pyformat(t, fill, align, width):
 def c12fmt_run(rep, rng, tier, term):
     viol = []
     vals = impl.build_values(rng, 150 if tier == 'quick' else 5000, odd=False, kinds=(0, 1))
+    viol += unobservable_violations('C12', ('pad',))
     for (o, ops, i) in vals:
         base = o.base_str
         if ESC in base or '\n' in base:
@@ -928,11 +945,12 @@ def c13_args(rng, o):
         ('capitalize', (), {}), ('casefold', (), {}), ('lower', (), {}), ('upper', (), {}), ('swapcase', (), {}), ('title', (), {}),
         ('center', (w, fill), {}), ('ljust', (w, fill), {}), ('rjust', (w, fill), {}), ('zfill', (w,), {}),
         ('clip', (a, b), {}), ('strip', (rng.choice([None, 'a', 'ab '])), {}) if False else ('strip', (rng.choice([None, 'a', 'ab ']),), {}),
-        ('lstrip', (rng.choice([None, 'a']),), {}), ('rstrip', (rng.choice([None, 'b']),), {}),
-        ('removeprefix', (base[:1],), {}), ('removesuffix', (base[-1:],), {}),
-        ('replace', (sub or 'a', rng.choice(['x', '', 'ab']), rng.choice([-1, 1])), {}), ('expandtabs', (rng.choice([0, 2, 4]),), {}),
+        ('lstrip', (rng.choice([None, 'a', '', base[:1] + ' ']),), {}), ('rstrip', (rng.choice([None, 'b', '', base[-1:] + ' ']),), {}),
+        ('removeprefix', (rng.choice([base[:1], base[:2], '', 'zz', base, base + 'x']),), {}),
+        ('removesuffix', (rng.choice([base[-1:], base[-2:], '', 'zz', base, 'x' + base]),), {}),
+        ('replace', (rng.choice([sub or 'a', '', base[:1]]), rng.choice(['x', '', 'ab', sub or 'a']), rng.choice([-1, 0, 1, 2])), {}), ('expandtabs', (rng.choice([0, 2, 4]),), {}),
         ('split', (rng.choice([None, sub or 'a']), rng.choice([-1, 1])), {}), ('rsplit', (rng.choice([None, sub or 'a']), rng.choice([-1, 1])), {}),
-        ('splitlines', (rng.random() < 0.5,), {}), ('partition', (sub or 'a',), {}), ('rpartition', (sub or 'b',), {}),
+        ('splitlines', (rng.random() < 0.5,), {}), ('partition', (rng.choice([sub or 'a', 'zz', base[:1]]),), {}), ('rpartition', (rng.choice([sub or 'b', 'zz', base[-1:]]),), {}),
         ('count', (sub, a, b), {}), ('find', (sub, a, b), {}), ('rfind', (sub, a, b), {}), ('index', (sub, a, b), {}), ('rindex', (sub, a, b), {}),
         ('endswith', (sub, a, b), {}), ('encode', (), {}),
         ('is_formatting_valid', (), {}), ('is_formatting_parsable', (), {}), ('is_optimizable', (), {}),
@@ -973,6 +991,7 @@ def c13_run(rep, rng, tier, term):
     shared = pa & pb
     covered = set()
     vals = impl.build_values(rng, 120 if tier == 'quick' else 5000, odd=False)
+    impl.drain_unobservable()
     # constructor forms
     g = Gen(rng, odd=False)
     for (o, ops, i) in vals[:200 if tier == 'quick' else 5000]:
